@@ -57,6 +57,27 @@ theorem module_glue_gen :
     prep_filt_afb2d_row_default = ["h0_row, h1_row = (h0_col, h1_col)"] ∧ prep_filt_sfb2d_row_default = ["g0_row, g1_row = (g0_col, g1_col)"] := by
   decide
 
+/-- **the DTCWT modules call the four level Functions with the arguments in the order the model assumes**: level 1 on the image, then
+levels `1 … J-1` (0-based) on the running low-pass with that level's skip flag; results stored per level; the inverse walks the levels
+from the coarsest (`J-1`) down to 1 over `highs[1:][::-1]` and applies `INV_J1` to `highs[0]` last -/
+theorem dtcwt_glue_gen :
+    dtcwtfwd_j1_args = ["x", "self.h0o", "self.h1o", "self.skip_hps[0]", "self.o_dim", "self.ri_dim", "mode"] ∧
+    dtcwtfwd_j2_args = ["low", "self.h0a", "self.h1a", "self.h0b", "self.h1b", "self.skip_hps[j]", "self.o_dim", "self.ri_dim", "mode"] ∧
+    dtcwtfwd_loop = ["j", "range(1, self.J)"] ∧
+    dtcwtfwd_stores = ["highs[0] = h", "scales[0] = low", "highs[j] = h", "scales[j] = low"] ∧
+    dtcwtfwd_returns = ["(x, None)", "(scales, highs)", "(low, highs)"] ∧
+    dtcwtinv_j1_args = ["low", "highs[0]", "self.g0o", "self.g1o", "self.o_dim", "self.ri_dim", "mode"] ∧
+    dtcwtinv_j2_args = ["low", "s", "self.g0a", "self.g1a", "self.g0b", "self.g1b", "self.o_dim", "self.ri_dim", "mode"] ∧
+    dtcwtinv_loop = ["(j, s)", "zip(range(J - 1, 0, -1), highs[1:][::-1])"] := by
+  decide
+
+/-- **no `forward` of a public module class assigns to an attribute of the module**: whatever a call computes lives in locals, so the
+module a call sees is the module the caller built (the model's modules are functions of their arguments and buffers; C15) -/
+theorem forward_keeps_no_state_gen :
+    dtcwtfwd_self_writes = [] ∧ dtcwtinv_self_writes = [] ∧ dwtfwd2_self_writes = [] ∧ dwtinv2_self_writes = [] ∧ swt_self_writes = [] ∧
+    dwtfwd1_self_writes = [] ∧ dwtinv1_self_writes = [] ∧ scat1_self_writes = [] ∧ scatj2_self_writes = [] := by
+  decide
+
 /-- the model's stationary transform uses the dilation read from the source: level `j` (from 0) dilates by `base ^ j` -/
 theorem swt_dilation_gen [Add α] [Mul α] [OfNat α 0] (mode : Mode) (wc0 wc1 wr0 wr1 : List α) (J j : Nat) (ll : List (Img α)) :
     SWTForward mode wc0 wc1 wr0 wr1 (J+1) j ll = (do
